@@ -33,7 +33,12 @@ RULE = ("hand-written seed circuits (self-loop, 2/3-cycles, diamond, every harml
         "documented chained event to the FSM itself, two of them, or an endless chain), on_enter/on_exit/on_notrans/"
         "on_output events with filters (a quarter of the first on_enter/on_exit events straight back to the FSM), "
         "timed states with zero or positive duration whose expiry is delivered on the virtual loop (`tick`), OutputFunc with a returning/failing function and 0..2 on_success / 0..1 on_error "
-        "events sent from inside its handler, a quarter of the first on_success events looping straight back), 0..2 on_output, 0..1 on_every_output and 0..2 explicitly sent "
+        "events sent from inside its handler, a quarter of the first on_success events looping straight back), "
+        "Repeat blocks (destination: the next block, a random block or itself; repeated type mostly one the destination knows; count None/0/1/2; "
+        "interval 0.7 s on the virtual clock: the op `adv` lets the time pass so that the main tasks re-send, one protocol line `resend` per repetition in the real order), "
+        "FSM cond_EVENT callbacks for a third of the events (0..1 statements: send / try-send an explicit event, raise, a direct event() call to any block; "
+        "then a constant or the truth value of the data item `value`), a third of the Inputs / Counters / FSMs persistent with an (empty) storage and sync_state, "
+        "0..2 on_output, 0..1 on_every_output and 0..2 explicitly sent "
         "events per block with random destination (self-loops, cycles, diamonds), event type (known, "
         "unknown, EventCond incl. nested and None branches), 0..2 filters; start-up of the circuit, "
         "then every external sequence of length <= 2 (quick: a random subset) / <= 3 over an alphabet of "
@@ -43,10 +48,15 @@ ASSUMPTIONS = [
     "scripted handlers either propagate the exceptions of the events they send or swallow all of them "
     "(try/except Exception: pass around one send); OutputFunc catches only the exceptions of its function",
     "values are ints/bools, so that Counter arithmetic never sees a non-number",
-    "FSM: cond_EVENT callbacks, the `duration` data item, persistence and user-defined calc_output are not "
-    "modelled (the output is the state name); the event data item `sdata` is left out; timers fire one at a "
-    "time in the order the event loop delivers them (recorded from the implementation); Repeat is not part of "
-    "this model",
+    "FSM: the `duration` data item is a number or absent (0 / negative = zero delay; strings with units and INF_TIME are "
+    "outside the scenarios); user-defined calc_output is not modelled (the output is the state name); the "
+    "event data item `sdata` is left out; timers fire one at a time in the order the event loop delivers them "
+    "(recorded from the implementation); cond_EVENT callbacks are scripts given as keyword arguments (no cond methods)",
+    "Repeat: WHEN the main task re-sends and with which counter is the implementation's (C18); the model validates the "
+    "counter (previous + 1, within count) and computes the delivery; the repeated type is a string; the queue itself is "
+    "not compared (only what is re-sent)",
+    "persistence: the storage is an empty dict (nothing is restored); saves are observed at get_state() and do not "
+    "change the dispatch state; restoring and expiry are C06's",
 ]
 EXHAUSTIVE = {'quick': False, 'thorough': False}
 
@@ -56,6 +66,11 @@ SWALLOWED = []  # (block, exception kind): a probe handler caught the exception 
 EXC_EXITS = []  # exception kinds that left an event handler
 DEEP = []       # handler entries at a nesting depth that no documented window allows
 BUSY_OK = []    # blocks whose event() returned normally although their handler was running (probe depth > 0)
+SAVES = []      # (block, _event_active, probe depth) at every get_state() call (the persistent-state save)
+COND_TAGS = set()
+COND_BAD = []   # a cond_EVENT callback that ran while its FSM was not locked
+NOT_TOP = []    # a Repeat block forwarded outside of its own handler / re-sent while some block was locked
+REPEAT_INTERVAL_US = 700_000
 
 
 # ---------------------------------------------------------------- real blocks with probes
@@ -102,6 +117,11 @@ class _Traced:
                 err._c11_seen = True
                 REFUSED.append(self.name)
             raise
+
+    def get_state(self):
+        """observe the save of the persistent state (AddonPersistence.event -> save_persistent_state)"""
+        SAVES.append((self.name, bool(self._event_active), getattr(self, '_c11_depth', 0), getattr(self, '_c11_window', 0)))
+        return super().get_state()
 
     def _c11_exit(self, ok):
         self._c11_depth -= 1
@@ -208,6 +228,69 @@ class _FsmProbe(_Traced, _Scripted):
 
 
 TIMER_HOOK = [None]
+RESEND_HOOK = [None, None]      # (record a repetition, flush the record of a failed one)
+
+
+class _EvProxy:
+    """stands for `Repeat._repeated_event`: observes (not alters) the sends of the block"""
+
+    def __init__(self, blk, ev):
+        self._blk, self._ev = blk, ev
+
+    @property
+    def etype(self):
+        return self._ev.etype
+
+    def send(self, source, /, **data):
+        blk = self._blk
+        rep = data.get('repeat', 0)
+        if getattr(blk, '_c11_depth', 0) > 0 or not rep:
+            # the synchronous forward: must come from inside the block's own handler, guard set
+            if not (getattr(blk, '_c11_depth', 0) == 1 and blk._event_active):
+                NOT_TOP.append(f"{blk.name}: forward outside of its handler (depth {getattr(blk, '_c11_depth', 0)}, "
+                               f"_event_active={blk._event_active})")
+            return self._ev.send(source, **data)
+        # a repetition sent by the main task
+        try:
+            ret = self._ev.send(source, **data)
+        except (Exception, Overflow) as err:    # pylint: disable=broad-except
+            RESEND_HOOK[0](blk, rep, err)
+            raise
+        RESEND_HOOK[0](blk, rep, None)
+        return ret
+
+
+class TRepeat(_Traced, edzed.Repeat):
+    """edzed.Repeat with probes: enter/exit log around Repeat._event, one protocol line per repetition"""
+
+    def _event(self, etype, data):
+        self._c11_enter(data)
+        ok = False
+        try:
+            ret = super()._event(etype, data)
+            ok = True
+            return ret
+        finally:
+            self._c11_exit(ok)
+
+    def set_output(self, value):
+        if getattr(self, '_c11_depth', 0) > 0 or not value:
+            return super().set_output(value)
+        # the main task begins a repetition: it runs outside of every handler
+        locked = [b.name for b in self.circuit.getblocks(edzed.SBlock) if b._event_active]
+        if locked:
+            NOT_TOP.append(f"{self.name}: repetition {value} begins while {locked} are locked")
+        try:
+            return super().set_output(value)
+        except (Exception, Overflow) as err:    # pylint: disable=broad-except
+            RESEND_HOOK[0](self, value, err)
+            raise
+
+    async def _task_monitor(self, coro, is_service=False):
+        try:
+            return await super()._task_monitor(coro, is_service)
+        finally:
+            RESEND_HOOK[1](self)
 
 
 def make_fsm(i, b, slots, kw):
@@ -225,6 +308,20 @@ def make_fsm(i, b, slots, kw):
             kw[f'on_enter_s{k}'] = slots[f'en{k}']
         if slots.get(f'ex{k}'):
             kw[f'on_exit_s{k}'] = slots[f'ex{k}']
+    for ev, (acts, cv) in b.get('conds', {}).items():
+        def cond(ev=ev, acts=acts, cv=cv):
+            # user code inside the handler: the FSM must be locked (and no window is open for it)
+            if not blk._event_active:
+                COND_BAD.append(f"{blk.name}: cond_{ev} called with _event_active=False")
+            try:
+                blk._run(acts)
+            except BaseException:
+                COND_TAGS.add('cond=exc')
+                raise
+            ret = cv[1] if cv[0] == 'c' else edzed.fsm_event_data.get().get(cv[1])
+            COND_TAGS.add(f'cond={bool(ret)}' + (':sends' if acts else ''))
+            return ret
+        kw[f'cond_{ev}'] = cond
     blk = cls(f'b{i}', initdef='s0', on_notrans=slots.get('nt', []), **kw)
     blk.extra = slots['x']
     return blk
@@ -355,6 +452,11 @@ def def_lines(scn):
             tm = '|'.join('-' if t is None else f'{enc_etype(t[0])}@{t[1]}' for t in b['timed'])
             lines.append(f"dispatch blk {i} fsm {b['n']} {tr} {'|'.join(enc_script(x) for x in b['enter'])} "
                          f"{'|'.join(enc_script(x) for x in b['exit'])} {tm}")
+            for ev, (acts, cv) in b.get('conds', {}).items():
+                lines.append(f"dispatch cond {i} {ev} {enc_script(acts)} "
+                             + (f"c{int(bool(cv[1]))}" if cv[0] == 'c' else f"k{cv[1]}"))
+        elif b['kind'] == 'repeat':
+            lines.append(f"dispatch blk {i} repeat {b['dest']} n:{b['etype']} {'n' if b['count'] is None else b['count']}")
         elif b['kind'] == 'outfunc':
             f = b['func']
             lines.append(f"dispatch blk {i} outfunc {f if isinstance(f, str) else 'c' + enc(f[1])}")
@@ -373,6 +475,8 @@ def build(scn):
             if src == i:
                 slots.setdefault(slot, []).append(edzed.Event(f'b{dest}', py_etype(et), efilter=[py_filter(f) for f in fl]))
         kw = {'on_output': slots['o'], 'on_every_output': slots['e']}
+        if b.get('persistent'):
+            kw['persistent'] = True         # sync_state=True: the state is saved after every event
         if b['kind'] == 'probe':
             blk = PB(f'b{i}', scripts={'init': b['init'], 'a': b['a'], 'b': b['b'], 'need': b['need'], 'ping': []},
                      extra=slots['x'], **kw)
@@ -384,6 +488,10 @@ def build(scn):
             blk = TInput(f'b{i}', **kw)
         elif b['kind'] == 'fsm':
             blk = make_fsm(i, b, slots, kw)
+        elif b['kind'] == 'repeat':
+            blk = TRepeat(f'b{i}', dest=f"b{b['dest']}", etype=b['etype'], count=b['count'],
+                          interval=REPEAT_INTERVAL_US / 1e6, **kw)
+            blk._repeated_event = _EvProxy(blk, blk._repeated_event)
         elif b['kind'] == 'outfunc':
             blk = TOutputFunc(f'b{i}', func=py_func(b['func']), on_success=slots['s'], on_error=slots['r'], **kw)
         else:
@@ -433,7 +541,7 @@ def followups(scn):
     out = []
     for i, b in enumerate(scn['blocks']):
         # harmless events that pass the guard: ping / a call that does not bind / an unknown type
-        out.append(['raw', i, ['n', {'probe': 'ping', 'outfunc': 'zz', 'fsm': 'zz'}.get(b['kind'], 'put')], {}])
+        out.append(['raw', i, ['n', {'probe': 'ping', 'outfunc': 'zz', 'fsm': 'zz', 'repeat': 'zz'}.get(b['kind'], 'put')], {}])
     return out
 
 
@@ -449,8 +557,14 @@ def run_impl(scn):
     del SWALLOWED[:]
     del EXC_EXITS[:]
     del DEEP[:]
+    del NOT_TOP[:]
+    del COND_BAD[:]
+    del SAVES[:]
+    COND_TAGS.clear()
 
     def build_circuit(circuit):
+        if any(b.get('persistent') for b in scn['blocks']):
+            circuit.set_persistent_data({})     # an empty storage: nothing to restore, every event saves
         ctx['blocks'] = build(scn)
         return ctx['blocks']
 
@@ -471,7 +585,17 @@ def run_impl(scn):
         del EXC_EXITS[:]
         deep = list(DEEP)
         del DEEP[:]
-        steps.append({'deep': deep, 'op': op, 'res': res, 'items': items, 'refused': refused, 'busy_ok': busy_ok, 'swallowed': swallowed, 'exc_exits': exc_exits,
+        not_top = list(NOT_TOP)
+        del NOT_TOP[:]
+        cond_bad = list(COND_BAD)
+        del COND_BAD[:]
+        saves = list(SAVES)
+        del SAVES[:]
+        if saves:
+            COND_TAGS.add('saved')
+        if any(x[2] and x[3] for x in saves):
+            COND_TAGS.add('saved:inside-chained-transition-window')
+        steps.append({'saves': saves, 'cond_bad': cond_bad, 'not_top': not_top, 'deep': deep, 'op': op, 'res': res, 'items': items, 'refused': refused, 'busy_ok': busy_ok, 'swallowed': swallowed, 'exc_exits': exc_exits,
                       'active': [b.name for b in blocks if b._event_active],
                       'error': kind_of(sim.circuit.error),
                       'maxdepth': max((getattr(b, '_c11_max', 0) for b in blocks), default=0)})
@@ -493,6 +617,24 @@ def run_impl(scn):
 
     TIMER_HOOK[0] = timer_hook
 
+    def resend_hook(blk, rep, err):
+        # a repetition was sent by the main task of a Repeat block (called where it ends)
+        d = int(blk.name[1:])
+        if err is None:
+            record(f"dispatch resend {d} {rep}", {'kind': 'resend', 'd': d, 'follow': False}, 'ret n', None)
+        else:
+            # the task is about to die; the record is completed when its monitor has seen the exception
+            ctx.setdefault('pending', {})[blk.name] = (d, rep, err)
+
+    def resend_flush(blk):
+        pend = ctx.get('pending', {}).pop(blk.name, None)
+        if pend is not None:
+            d, rep, err = pend
+            record(f"dispatch resend {d} {rep}", {'kind': 'resend', 'd': d, 'follow': False}, 'exc ' + kind_of(err), err)
+
+    RESEND_HOOK[0] = resend_hook
+    RESEND_HOOK[1] = resend_flush
+
     def stop_line():
         ctx['stopped'] = True
         lines.append('dispatch stop')
@@ -502,6 +644,18 @@ def run_impl(scn):
         blocks = ctx['blocks']
         for op in ops:
             kind = op[0]
+            if kind == 'adv':
+                # let the virtual time pass: the main tasks of the Repeat blocks re-send (and FSM timers fire)
+                if loop is None:
+                    continue
+                if sim.circuit.error is None:
+                    await vtime.advance_to(loop, round(loop.time() * 1e6) + REPEAT_INTERVAL_US)
+                    await vtime.settle(loop)
+                if sim.circuit.error is not None and not ctx.get('stopped'):
+                    while not sim.simtask.done():
+                        await asyncio.sleep(0)
+                    stop_line()
+                continue
             if kind == 'tick':
                 # let the earliest timer fire (virtual time); once the simulation has been aborted, yielding
                 # to the loop lets the simulation task finish: all blocks are stopped, the timers cancelled
@@ -534,7 +688,7 @@ def run_impl(scn):
 
     async def drive(sim, blocks):
         # the start-up went well
-        record('dispatch init', {'kind': 'init'}, 'ret n', None)
+        record('dispatch init', {'kind': 'init'}, 'ret n' if sim.circuit.error is None else 'exc ' + kind_of(sim.circuit.error), None)
         await do_ops(scn['ops'], False, sim.loop)
         await do_ops(followups(scn), True, sim.loop)
 
@@ -556,7 +710,10 @@ def run_impl(scn):
             tags.append('res=' + s['res'].split()[0] + ('' if s['res'].startswith('ret') else ':' + s['res'].split()[1]))
         if s['refused'] != '-':
             tags.append('refused')
-    tags = sorted(set(tags))
+        if s['op']['kind'] == 'resend':
+            tags.append('resend=' + s['res'].split()[0] + ('' if s['res'].startswith('ret') else ':' + s['res'].split()[1])
+                        + (':refused' if s['refused'] != '-' else ''))
+    tags = sorted(set(tags) | COND_TAGS)
     return {'lines': lines, 'trace': trace, 'steps': steps, 'tags': tags, 'nontrivial': entered > 0}
 
 
@@ -573,6 +730,18 @@ def oracle(scn, res):
         if deep:
             out.append({'clause': 'no_nested_handling',
                         'what': f"step {i} {op}: handler entered while the block was handling an event: {deep}"})
+        # the save never runs with the block locked, nor inside a handler of the block – except when that handler is
+        # suspended in the documented chained-transition window (the nested event()'s own wrapper saves)
+        bad_saves = [x for x in s['saves'] if x[1] or (x[2] and not x[3])]
+        if bad_saves:
+            out.append({'clause': 'save_outside_guard',
+                        'what': f"step {i} {op}: get_state() of a block that was inside event(): {bad_saves}"})
+        if s['cond_bad']:
+            out.append({'clause': 'cond_callback_runs_locked',
+                        'what': f"step {i} {op}: {s['cond_bad']}"})
+        if s['not_top']:
+            out.append({'clause': 'repeat_resend_is_top_level',
+                        'what': f"step {i} {op}: {s['not_top']}"})
         if s['busy_ok']:
             out.append({'clause': 'recursion_is_refused_and_aborts',
                         'what': f"step {i} {op}: an event addressed to a block that was handling an event was "
@@ -591,7 +760,8 @@ def oracle(scn, res):
         #    an event was refused by a busy block (whoever catches that exception); a failed start-up
         failed = s['res'].startswith('exc')
         expect = any(k != 'UnknownEvent' for k in s['exc_exits']) or s['refused'] != '-'
-        if op['kind'] == 'init':
+        if op['kind'] in ('init', 'resend'):
+            # a failed start-up; an exception ending the main task of a block (its monitor aborts)
             expect = expect or failed
         else:
             if s['refused'] != '-' and not failed and not s['swallowed']:
@@ -634,8 +804,8 @@ def cnt(mod=None, initdef=0):
     return {'kind': 'counter', 'mod': mod, 'initdef': initdef}
 
 
-def fsm(n, trans, enter=None, exit_=None, timed=None):
-    return {'kind': 'fsm', 'n': n, 'trans': trans, 'timed': timed or [None] * n,
+def fsm(n, trans, enter=None, exit_=None, timed=None, conds=None):
+    return {'kind': 'fsm', 'n': n, 'trans': trans, 'timed': timed or [None] * n, 'conds': conds or {},
             'enter': enter or [[] for _ in range(n)], 'exit': exit_ or [[] for _ in range(n)]}
 
 
@@ -643,9 +813,74 @@ def outf(func='v'):
     return {'kind': 'outfunc', 'func': func}
 
 
+def rpt(dest, etype='put', count=None):
+    return {'kind': 'repeat', 'dest': dest, 'etype': etype, 'count': count}
+
+
 def seeds():
     E = lambda d, name, data=None: ['ext', d, name, data or {}]
     R = lambda d, et, data=None: ['raw', d, et, data or {}]
+    # FSM cond_EVENT callbacks: constant false = rejected (nothing locked, no abort); the value of a data item;
+    # a callback sending an event that loops back to the FSM (through another block / directly): refused;
+    # a callback inside the chained-transition window (entry action sends e1, cond_e1 false: request not parked)
+    yield {'blocks': [fsm(2, [['e0', None, 1], ['e1', None, 0]], conds={'e0': [[], ['c', False]], 'e1': [[], ['k', 'value']]})],
+           'edges': [], 'ops': [E(0, 'e0'), R(0, ['g', 1]), E(0, 'e1'), E(0, 'e1', {'value': 0}), E(0, 'e1', {'value': 2})]}
+    yield {'blocks': [fsm(2, [['e0', None, 1], ['e1', None, 0]], conds={'e0': [[['s', 0, 1]], ['c', True]]}), inp()],
+           'edges': [[0, 'x', 1, N('put'), []], [1, 'o', 0, N('e1'), ['u']]], 'ops': [E(0, 'e0')]}
+    yield {'blocks': [fsm(2, [['e0', None, 1], ['e1', None, 0]], conds={'e0': [[['e', 0, N('e1')]], ['c', True]]})],
+           'edges': [], 'ops': [E(0, 'e0'), E(0, 'e1')]}
+    yield {'blocks': [fsm(2, [['e0', None, 1], ['e1', None, 0]], conds={'e0': [[['t', 0, None]], ['c', False]]})],
+           'edges': [[0, 'x', 0, N('e1'), []]], 'ops': [E(0, 'e0'), E(0, 'e1')]}
+    yield {'blocks': [fsm(2, [['e0', 0, 1], ['e1', 1, 0]], enter=[[], [['e', 0, N('e1')]]],
+                          conds={'e1': [[], ['k', 'value']]}), cnt()],
+           'edges': [], 'ops': [E(0, 'e0'), E(0, 'e1', {'value': 1}), E(0, 'e0', {'value': 1})]}
+    yield {'blocks': [fsm(2, [['e0', None, 1], ['e1', None, 0]], conds={'e1': [[['r']], ['c', True]]}, timed=[None, [N('e1'), 1]])],
+           'edges': [], 'ops': [E(0, 'e0'), ['tick'], E(0, 'e0')]}
+    # persistent blocks (empty storage, sync_state): the state is saved after each event, outside the guard;
+    # a cycle through a persistent Input; a handler error disables persistence and is re-raised
+    yield {'blocks': [{**inp(), 'persistent': True}, {**cnt(), 'persistent': True}],
+           'edges': [[0, 'o', 1, N('inc'), ['u']], [1, 'o', 0, N('put'), ['u']]],
+           'ops': [E(1, 'dec'), E(0, 'put'), E(0, 'put', {'value': 1}), E(1, 'inc')]}
+    yield {'blocks': [{**fsm(2, [['e0', None, 1], ['e1', None, 0]], enter=[[], [['r']]]), 'persistent': True},
+                      {**inp(), 'persistent': True}],
+           'edges': [[1, 'o', 0, N('e0'), ['u']]], 'ops': [E(0, 'e1'), E(1, 'put', {'value': 1}), R(1, N('put'), {'value': 2})]}
+    # the `duration` item of an event: 0 makes the expiry of the timed state a chained transition
+    yield {'blocks': [fsm(2, [['e0', 0, 1], ['e1', 1, 0]], timed=[None, [N('e1'), 2]]), cnt()],
+           'edges': [[0, 'en0', 1, N('inc'), []], [0, 'ex1', 0, N('e0'), ['v']]],
+           'ops': [E(0, 'e0', {'duration': 0}), E(0, 'e0', {'duration': 1}), ['tick'], E(0, 'e0'), R(0, ['g', 1], {'duration': 0}),
+                   E(0, 'e0', {'duration': 0, 'value': 1})]}
+    A = ['adv']
+    # Repeat: forwards from inside its handler, re-sends from its main task (count 2: two repetitions)
+    yield {'blocks': [rpt(1, 'put', 2), inp()], 'edges': [], 'ops': [E(0, 'put', {'value': 1}), A, A, A, E(0, 'zz'), E(0, 'put', {'value': 2}), A]}
+    # ... A -> Repeat -> A: a recursion on A (refused at the forward, nothing queued: no repetition)
+    yield {'blocks': [inp(), rpt(0, 'put')], 'edges': [[0, 'o', 1, N('put'), ['u']]], 'ops': [E(0, 'put', {'value': 1}), A, A]}
+    # ... Repeat -> A -> the same Repeat: a recursion on the Repeat
+    yield {'blocks': [rpt(1, 'put'), inp()], 'edges': [[1, 'o', 0, N('put'), ['u']]], 'ops': [E(0, 'put', {'value': 1}), A]}
+    # ... a Repeat repeating to itself
+    yield {'blocks': [rpt(0, 'put')], 'edges': [], 'ops': [E(0, 'put', {'value': 1}), A]}
+    # ... the loop is closed only at the first repetition: Repeat's own output event (output 0 -> 1) reaches
+    #     the destination's sender; the re-send itself finds clean flags
+    yield {'blocks': [rpt(1, 'inc'), cnt(), probe(a=[['s', 0, None]])],
+           'edges': [[0, 'o', 2, N('a'), ['u', 'v']], [2, 'x', 0, N('inc'), []]], 'ops': [E(0, 'inc'), A, A]}
+    # ... the destination refuses the forward (unknown type / missing parameter): nothing queued, no abort
+    yield {'blocks': [rpt(1, 'zz'), inp(), rpt(1, 'put', 1)], 'edges': [], 'ops': [E(0, 'zz'), A, E(2, 'put'), A, E(2, 'put', {'value': 3}), A, A]}
+    # ... the destination fails at a repetition only (Counter modulo: TypeError never; probe raising on value 1)
+    yield {'blocks': [rpt(1, 'need', None), probe(need=[['o', 1], ['s', 0, None]]), inp()],
+           'edges': [[1, 'x', 2, N('put'), []], [2, 'o', 0, N('need'), ['u']]], 'ops': [E(0, 'need', {'value': 5}), A]}
+    # ... Repeat -> Repeat -> Input, and an FSM driven by repetitions
+    yield {'blocks': [rpt(1, 'put', 1), rpt(2, 'put', 1), inp()], 'edges': [], 'ops': [E(0, 'put', {'value': 1}), A, A, A]}
+    yield {'blocks': [rpt(1, 'e0', 3), fsm(2, [['e0', None, 1], ['e1', 1, 0]], timed=[None, [N('e1'), 1]])],
+           'edges': [[1, 'en1', 0, N('e0'), ['v']]], 'ops': [E(0, 'e0'), A, A, ['tick'], A]}
+    # ... the loop is met by the repetition only: the FSM has no transition for the repeated event in its new
+    #     state and reports that (on_notrans) to the Repeat, which forwards it to the busy FSM
+    yield {'blocks': [rpt(1, 'e0'), fsm(2, [['e0', 0, 1], ['e0', 1, None]])], 'edges': [[1, 'nt', 0, N('e0'), []]],
+           'ops': [E(0, 'e0'), A, A, E(0, 'e0')]}
+    # ... an exception that does not abort by itself (unknown type at a repetition: the FSM has left the state
+    #     that knows... no: unknown is per class) -> a missing parameter at the repetition is impossible too;
+    #     a probe destination whose handler raises at the second call
+    yield {'blocks': [rpt(1, 'a', 2), probe(a=[['s', 0, None]]), cnt(mod=None, initdef=0), probe(a=[['r']])],
+           'edges': [[1, 'x', 2, N('inc'), []], [2, 'o', 3, ['c', N('a'), ['0']], [['s', 0], 'w', ['s', 1]]]],
+           'ops': [E(0, 'a'), A, A]}
     # OutputFunc: on_success loops straight back (through a filter only) / through another block;
     # a failing function whose on_error event loops back; no loop
     yield {'blocks': [outf()], 'edges': [[0, 's', 0, N('put'), [['s', 2]]]], 'ops': [E(0, 'put', {'value': 1})]}
@@ -739,9 +974,13 @@ def seeds():
 VALUES = [0, 1, 2, 3, True, False]
 
 
-def rand_etype(rng, kind, depth=0, nst=2):
+def rand_etype(rng, kind, depth=0, nst=2, own=None):
     if kind == 'fsm' and rng.random() < 0.15:
         return ['g', rng.randrange(nst)]
+    if kind == 'repeat':
+        # mostly the type the block repeats
+        return N(own if rng.random() < 0.8 else 'zz') if rng.random() < 0.8 or depth >= 2 else \
+            ['c', N(own), ['0'] if rng.random() < 0.5 else N(own)]
     names = {'fsm': ['e0', 'e0', 'e0', 'e1', 'e1', 'zz'],
              'probe': ['a', 'a', 'b', 'b', 'need', 'ping', 'zz'],
              'input': ['put', 'put', 'put', 'zz'],
@@ -775,9 +1014,22 @@ def rand_circuit(rng):
     otherwise events (and loops) occur already during the initialisation"""
     quiet = rng.random() < 0.6
     n = rng.choice([1, 2, 2, 3, 3, 3, 4])
-    kinds = [rng.choice(['probe', 'probe', 'probe', 'input', 'input', 'counter', 'outfunc', 'outfunc', 'fsm', 'fsm', 'fsm'])
+    kinds = [rng.choice(['probe', 'probe', 'probe', 'input', 'input', 'counter', 'outfunc', 'outfunc', 'fsm', 'fsm', 'fsm',
+                         'repeat', 'repeat', 'repeat'])
              for _ in range(n)]
     nst = [rng.choice([2, 2, 3]) for _ in range(n)]     # number of states of the FSMs
+    # Repeat blocks: destination (a fifth: the next block of the backbone, sometimes itself), the repeated type
+    # (mostly one the destination knows; a Repeat feeding a Repeat uses that block's type), count
+    rdest = [(i + 1) % n if rng.random() < 0.4 else rng.randrange(n) for i in range(n)]
+    KNOWN = {'fsm': ['e0', 'e0', 'e1'], 'probe': ['a', 'a', 'b', 'need', 'ping'], 'input': ['put'],
+             'counter': ['inc', 'inc', 'dec', 'put', 'reset'], 'outfunc': ['put'], 'repeat': ['put', 'a']}
+    rtype = [None] * n
+    for i in range(n):
+        if kinds[i] == 'repeat':
+            rtype[i] = rng.choice(KNOWN[kinds[rdest[i]]]) if rng.random() < 0.9 else 'zz'
+    for i in range(n):
+        if kinds[i] == 'repeat' and kinds[rdest[i]] == 'repeat' and rng.random() < 0.8:
+            rtype[i] = rtype[rdest[i]]
     edges, nextra = [], [0] * n
     # a backbone cycle or chain makes loops likely
     shape = rng.random()
@@ -799,7 +1051,7 @@ def rand_circuit(rng):
                 fl = rand_filters(rng)
                 if quiet and slot in 'oe':
                     fl.insert(rng.randrange(len(fl) + 1), 'u')
-                edges.append([i, slot, dest, rand_etype(rng, kinds[dest], 0, nst[dest]), fl])
+                edges.append([i, slot, dest, rand_etype(rng, kinds[dest], 0, nst[dest], rtype[dest]), fl])
                 if slot == 'x':
                     nextra[i] += 1
     blocks = []
@@ -818,7 +1070,7 @@ def rand_circuit(rng):
                         acts.append(['r'])
                     elif r < 0.96:
                         d = rng.randrange(n)
-                        acts.append(['e', d, rand_etype(rng, kinds[d], 0, nst[d]) if rng.random() < 0.6 else [rng.choice(['e', 'x', '0'])]])
+                        acts.append(['e', d, rand_etype(rng, kinds[d], 0, nst[d], rtype[d]) if rng.random() < 0.6 else [rng.choice(['e', 'x', '0'])]])
                 return acts
             r = rng.random()
             init = [['o', rng.choice(VALUES)]] if r < 0.75 or quiet else (
@@ -857,16 +1109,35 @@ def rand_circuit(rng):
                     elif r < 0.9:
                         acts.append(['r'])
                 return acts
-            blocks.append({'kind': 'fsm', 'n': ns, 'trans': trans, 'timed': timed,
+            conds = {}
+            for ev in evs:
+                if rng.random() < 0.35:
+                    acts = []
+                    if rng.random() < 0.45:
+                        r = rng.random()
+                        if r < 0.65 and nextra[i]:
+                            acts.append(['s' if rng.random() < 0.7 else 't', rng.randrange(nextra[i]),
+                                         rng.choice(VALUES + [None, None])])
+                        elif r < 0.75:
+                            acts.append(['r'])
+                        elif r < 0.9:
+                            d = rng.randrange(n)
+                            acts.append(['e', d, rand_etype(rng, kinds[d], 0, nst[d], rtype[d])])
+                    q = rng.random()
+                    conds[ev] = [acts, ['c', True] if q < 0.4 else ['c', False] if q < 0.65 else ['k', 'value']]
+            blocks.append({'kind': 'fsm', 'n': ns, 'trans': trans, 'timed': timed, 'conds': conds,
+                           'persistent': rng.random() < 0.35,
                            'enter': [fscript(True) for _ in range(ns)], 'exit': [fscript(False) for _ in range(ns)]})
+        elif k == 'repeat':
+            blocks.append(rpt(rdest[i], rtype[i], rng.choice([None, None, 0, 1, 2])))
         elif k == 'outfunc':
             blocks.append(outf(rng.choice(['v', 'v', 'v', 'f', ['c', rng.choice(VALUES)]])))
         elif k == 'input':
             allowed = None if rng.random() < 0.7 else [0, 1, 2]
             initdef = rng.choice([0, 1, 2]) if rng.random() < 0.8 or quiet else None
-            blocks.append(inp(initdef=initdef, allowed=allowed))
+            blocks.append({**inp(initdef=initdef, allowed=allowed), 'persistent': rng.random() < 0.35})
         else:
-            blocks.append(cnt(mod=rng.choice([None, None, 3]), initdef=rng.choice([0, 1])))
+            blocks.append({**cnt(mod=rng.choice([None, None, 3]), initdef=rng.choice([0, 1])), 'persistent': rng.random() < 0.35})
     return {'blocks': blocks, 'edges': edges}
 
 
@@ -879,10 +1150,18 @@ def alphabet(rng, circ):
             ops += [['ext', i, 'a', {}], ['ext', i, 'b', {'value': rng.choice(VALUES)}],
                     ['ext', i, rng.choice(['need', 'zz']), rng.choice([{}, {'value': 1}])]]
         elif k == 'fsm':
+            if any(t is not None for t in b['timed']):
+                # the `duration` item: overrides the timed state's default (0 = expiry chained at once)
+                ops += [['ext', i, rng.choice(['e0', 'e1']), {'duration': rng.choice([0, 0, 1, 2])}],
+                        ['raw', i, ['g', rng.choice([k for k, t in enumerate(b['timed']) if t is not None])],
+                         {'duration': rng.choice([0, 1])}]]
             ops += [['ext', i, 'e0', {}], ['ext', i, rng.choice(['e0', 'e1']), {'value': rng.choice(VALUES)}],
                     ['ext', i, rng.choice(['e1', 'zz']), {}], ['raw', i, ['g', rng.randrange(b['n'])], {}]]
             if any(t is not None and t[1] > 0 for t in b['timed']):
                 ops += [['tick'], ['tick']]
+        elif k == 'repeat':
+            ops += [['ext', i, b['etype'], {'value': rng.choice(VALUES)}], ['ext', i, b['etype'], rng.choice([{}, {'value': rng.choice(VALUES)}])],
+                    ['ext', i, rng.choice([b['etype'], 'zz']), {}], ['adv'], ['adv'], ['adv']]
         elif k == 'outfunc':
             ops += [['ext', i, 'put', {'value': rng.choice(VALUES)}], ['ext', i, 'put', {'value': rng.choice(VALUES)}],
                     ['ext', i, rng.choice(['put', 'zz']), {}]]
@@ -894,7 +1173,7 @@ def alphabet(rng, circ):
                     ['ext', i, 'put', rng.choice([{}, {'value': rng.choice([0, 1, 2, 3])}])]]
     i = rng.randrange(len(circ['blocks']))
     ops.append(['raw', i, rng.choice([['e'], ['x'], ['0'], ['c', ['0'], ['0']],
-                                      ['c', rand_etype(rng, circ['blocks'][i]['kind']), ['0']]]),
+                                      ['c', rand_etype(rng, circ['blocks'][i]['kind'], own=circ['blocks'][i].get('etype')), ['0']]]),
                 rng.choice([{}, {'value': 1}])])
     return ops
 
@@ -916,6 +1195,12 @@ def scenarios(rng, tier):
                 yield {**circ, 'ops': [list(o) for o in seq]}
             continue
         yield {**circ, 'ops': []}
+        reps = [i for i, b in enumerate(circ['blocks']) if b['kind'] == 'repeat']
+        for _ in range(3 if reps else 0):
+            # an event for a Repeat block, time for its repetitions, another event, more time
+            i = rng.choice(reps)
+            ev = ['ext', i, circ['blocks'][i]['etype'], rng.choice([{}, {'value': rng.choice(VALUES)}, {'value': rng.choice(VALUES)}])]
+            yield {**circ, 'ops': [ev, ['adv'], ['adv'], list(rng.choice(alpha)), ['adv']][:rng.choice([2, 3, 5])]}
         for _ in range(nseq):
             yield {**circ, 'ops': [list(rng.choice(alpha)) for _ in range(rng.choice([1, 2, 3, 3, 4]))]}
 
